@@ -1,0 +1,12 @@
+//go:build verif
+
+package cloudflare
+
+// Contracts for govc (property C02). Comment-only file: it adds no code.
+
+// ChallengePageHook: discard exactly the 403 answers marked as a Cloudflare challenge.
+//@ func ChallengePageHook
+//@   property C02
+//@   requires resp != nil
+//@   modifies nothing
+//@   ensures [def] result0 == (resp.StatusCode == 403 && resp.Header.Get("cf-mitigated") == "challenge") // C02: Cloudflare challenge pages are never written
